@@ -50,6 +50,12 @@ fn main() {
             }
         }
     }
+    // Supervisor: the check itself runs in a worker process that records the case each thread has
+    // in flight. If the worker is killed (stack overflow, abort, out of memory) the supervisor finds
+    // the in-flight case that reproduces the death and reports it; a panic is caught in-process.
+    if std::env::var("VERIF_WORKER").is_err() && child_limit.is_none() && replay.is_none() && id != "C05" && id != "C19" {
+        supervise(&id, &args);
+    }
     install_panic_hook();
     let level = match id.as_str() {
         "C13" | "C14" => "fault_enumeration",
@@ -86,4 +92,59 @@ fn main() {
         "C20" => props::c20::run(chk),
         _ => infra(&format!("no check for {id}")),
     }
+}
+
+fn supervise(id: &str, args: &[String]) -> ! {
+    use std::process::Command;
+    let exe = std::env::current_exe().unwrap_or_else(|e| infra(&format!("current_exe: {e}")));
+    let out = vcore::runner::out_root();
+    let dir = out.join(format!("inflight-{}-{}", id, std::process::id()));
+    let _ = std::fs::remove_dir_all(&dir);
+    if std::fs::create_dir_all(&dir).is_err() {
+        infra("cannot create the in-flight directory");
+    }
+    let ev = out.join("evidence").join(format!("{id}.json"));
+    let before = std::fs::metadata(&ev).and_then(|m| m.modified()).ok();
+    let status = Command::new(&exe).args(args).env("VERIF_WORKER", "1").env("VERIF_INFLIGHT_DIR", &dir).status().unwrap_or_else(|e| infra(&format!("cannot start the worker: {e}")));
+    if let Some(code) = status.code() {
+        let _ = std::fs::remove_dir_all(&dir);
+        std::process::exit(code);
+    }
+    // killed by a signal
+    let mut files: Vec<_> = std::fs::read_dir(&dir).map(|rd| rd.filter_map(|e| e.ok()).map(|e| e.path()).collect()).unwrap_or_default();
+    files.sort();
+    let mut reported = false;
+    for f in &files {
+        let st = Command::new(&exe).arg(id).arg("--replay").arg(f).env("VERIF_WORKER", "1").env("VERIF_CHILD", "1").env("VERIF_EVIDENCE_PATH", dir.join("replay-evidence.json")).stdout(std::process::Stdio::null()).stderr(std::process::Stdio::null()).status();
+        if matches!(&st, Ok(s) if s.code().is_none()) {
+            let rdir = out.join("replays").join(id);
+            let _ = std::fs::create_dir_all(&rdir);
+            let dest = rdir.join(format!("process-killed-{}", f.file_name().map(|n| n.to_string_lossy().to_string()).unwrap_or_default()));
+            let _ = std::fs::copy(f, &dest);
+            println!("VIOLATION property={id} replay={}", dest.display());
+            println!("  key={id}/process-killed msg=the process is killed by a signal ({status}) while this case runs: stack overflow, abort or out of memory inside the code under test");
+            reported = true;
+            break;
+        }
+    }
+    // the worker did not live to write its evidence
+    let after = std::fs::metadata(&ev).and_then(|m| m.modified()).ok();
+    if after == before {
+        let tier = std::env::var("VERIF_TIER").unwrap_or_else(|_| "quick".into());
+        let seed = std::env::var("VERIF_SEED").ok().and_then(|s| s.parse::<u64>().ok()).unwrap_or(0);
+        let level = if id == "C13" || id == "C14" { "fault_enumeration" } else { "exploration" };
+        let text = format!(
+            "{{\"property_id\":\"{id}\",\"tier\":\"{tier}\",\"seed\":{seed},\"level\":\"{level}\",\"coverage\":{{\"evaluations\":{n},\"distinct_nontrivial\":{n},\"rule\":\"the worker process was killed by a signal ({status}); only the cases in flight at that moment are known\",\"samples\":[\"(none: the worker did not report)\"]}},\"assumptions\":[],\"wall_s\":0,\"violations\":{v}}}",
+            n = files.len().max(2),
+            v = if reported { 1 } else { 0 }
+        );
+        let _ = std::fs::create_dir_all(ev.parent().unwrap());
+        let _ = std::fs::write(&ev, text);
+    }
+    let _ = std::fs::remove_dir_all(&dir);
+    if reported {
+        std::process::exit(1);
+    }
+    println!("INCONCLUSIVE: the worker process was killed by a signal ({status}) and no in-flight case reproduces it");
+    std::process::exit(2);
 }
